@@ -551,6 +551,19 @@ def run(ck, build):
         kdflib.check_prng(_defined_ob, mod, label, generate=False)
     except Broken as e:
         ck.not_decided.append("R-C06-DEFINED (the PRNG seed buffer is defined before the entropy request): the seeding summary does not follow the code - %s" % str(e)[:160])
+    # calls and definitions agree on the prototype (after linking, a call whose type differs from the definition's is a call through a cast:
+    # undefined behaviour, and in practice an argument passed at the wrong width)
+    ck.rule("R-C06-PROTO", "every direct call in the linked library has the function type its callee is defined with (a definition that drifts from the header's prototype is called "
+            "through a cast: the argument registers are read at another width than they were written)")
+    npro = 0
+    for g_ in mod.fns.values():
+        for I_ in g_.insts:
+            if I_.op == "call" and I_.callee and not I_.is_dbg() and not I_.is_lifetime():
+                npro += 1
+                if I_.get("proto_mismatch"):
+                    ck.bad("R-C06-PROTO", g_.name, "call-prototype:%s#%d[%s]" % (I_.callee, I_.id, label),
+                           "call of %s with another function type than its definition (%s)" % (I_.callee, I_.get("proto_mismatch")), where=relpath(I_.where))
+    ck.ok("R-C06-PROTO", "(module)", "call-prototypes[%s]" % label, "%d direct calls examined" % npro)
     nw, nwnotes = nowrap_rule(ck, mod, label)
     ck.floor("R-C06-NOWRAP", "length subtractions shown not to wrap", nw["proven"], 12)
     for u in nwnotes:
